@@ -234,6 +234,7 @@ def extra_scenarios(tier, seed):
 
 
 CHECK = PropertyCheck(
+    whole_run_clauses=('fixed_variable_varies_within_a_request', 'fixed_variable_moved'),
     prop="C09", trace_module="Trace_C09", drive=drive, model_runs=model_runs, extra_scenarios=extra_scenarios,
     rule=("TLC enumerates masks over three variables (all free, single free, ...) x request scripts of length 2 (thorough 3) x nested or "
           "not x one or two samplers x back-end (scripted plug-in, real SciPy plug-in under the scripted client); each runs on a real plan "
